@@ -60,38 +60,83 @@ theorem conceal_gives_every_alternative_a_value_and_keeps_the_rest {α : Type} [
   obtain ⟨a, ha, v, e1, e2, e3, e4⟩ := h7 a' ha'
   exact ⟨a, ha, v, by simpa using e1, e2, e3, e4⟩
 
-/-- Naming: while the ids carrying the concealed prefix are exactly the first `k` generated names
-    (no foreign id has the prefix, earlier concealed criteria are numbered consecutively), the next
-    generated name is new, and appending it keeps the invariant (so any number of consecutive
-    concealments get distinct ids). -/
+/-- Naming, unconditionally: whatever ids exist (foreign ids with the prefix, gaps left by omitted
+    concealed criteria, …) the generated name is the id of no criterion, and it carries the prefix.
+    `Criteria.NotUsedName` starts at the number of prefixed ids and keeps counting while the candidate is
+    in use; the candidates are pairwise different, so at most `ids.length` of them can be taken. -/
+theorem concealed_name_is_fresh (ids : List String) :
+    notUsedName ids "__concealedCriterion__" ∉ ids ∧
+    (notUsedName ids "__concealedCriterion__").startsWith "__concealedCriterion__" = true :=
+  ⟨notUsedName_fresh ids _, notUsedName_prefixed ids _⟩
+
+/-- … more precisely it is the first free numbered name `base`, `base1`, `base2`, … from the number `n` of
+    prefixed ids on (at most `n + ids.length`): every earlier candidate is in use. -/
+theorem concealed_name_is_the_first_free_numbered_name (ids : List String) :
+    ∃ k, (ids.filter fun i => i.startsWith "__concealedCriterion__").length ≤ k ∧
+      k ≤ (ids.filter fun i => i.startsWith "__concealedCriterion__").length + ids.length ∧
+      notUsedName ids "__concealedCriterion__" = numberedName "__concealedCriterion__" k ∧
+      numberedName "__concealedCriterion__" k ∉ ids ∧
+      ∀ j, (ids.filter fun i => i.startsWith "__concealedCriterion__").length ≤ j → j < k →
+        numberedName "__concealedCriterion__" j ∈ ids :=
+  notUsedName_spec ids _
+
+/-- Naming under the consecutive-numbering invariant: while the ids carrying the concealed prefix are
+    exactly the first `k` generated names (no foreign id has the prefix, earlier concealed criteria are
+    numbered consecutively), the next generated name is the `k`-th numbered name, is new, and appending it
+    keeps the invariant. -/
 theorem concealed_name_is_fresh_under_the_naming_invariant {ids : List String} {k : Nat}
     (hinv : NamingInvariant ids "__concealedCriterion__" k) :
+    notUsedName ids "__concealedCriterion__" = numberedName "__concealedCriterion__" k ∧
     notUsedName ids "__concealedCriterion__" ∉ ids ∧
     NamingInvariant (ids ++ [notUsedName ids "__concealedCriterion__"]) "__concealedCriterion__" (k + 1) :=
-  ⟨(notUsedName_fresh hinv).2, namingInvariant_step hinv⟩
+  ⟨(notUsedName_under_invariant hinv).1, (notUsedName_under_invariant hinv).2, namingInvariant_step hinv⟩
 
 example : NamingInvariant ["c0", "c1"] "__concealedCriterion__" 0 := by simp [NamingInvariant]
 example : NamingInvariant ["c0", "__concealedCriterion__", "c1", "__concealedCriterion__1"] "__concealedCriterion__" 2 := by
   simp [NamingInvariant, List.range, List.range.loop, numberedName]
   rfl
 
-/-- Counterexample outside the invariant (conceal, conceal, omit the first concealed criterion,
-    conceal): when the only id left with the prefix is `__concealedCriterion__1`, the generated name
-    is that id again and the model — like the Go code, which panics in `WithCriterion` / `Criteria.Add` —
-    rejects the concealment, for every method, seed and props. -/
-theorem conceal_collides_after_conceal_conceal_omit {α : Type} [Num α] (eps : α) (orig cur : DMP α)
-    (p : Props α) (rd g : Draws α)
-    (hids : ((cur.crit.map (·.id)).filter fun i => i.startsWith "__concealedCriterion__") = ["__concealedCriterion__" ++ "1"]) :
-    ∃ e, conceal eps orig cur p rd g = .error e := by
-  cases hres : conceal eps orig cur p rd g with
-  | error e => exact ⟨e, rfl⟩
-  | ok r =>
-    obtain ⟨res, rep⟩ := r
-    obtain ⟨_, hname, hfresh⟩ := conceal_appends_one_gain_criterion hres
-    have hmem := notUsedName_collision hids
-    rw [← hname, List.mem_map] at hmem
-    obtain ⟨x, hx, e⟩ := hmem
-    exact (hfresh x hx e).elim
+/-- A concealment never fails because of the name — for every current state, with no hypothesis on the
+    earlier biases: the id the concealed criterion gets is the id of no current criterion, so
+    `Criteria.Add` accepts the criterion, and `WithCriterion` accepts the value for every alternative
+    whose value keys are criteria ids (a coherent state).  Whether `conceal` succeeds or fails is thus
+    decided by the other steps (props, reference criterion, listener, `Merge`) only. -/
+theorem conceal_name_never_collides {α : Type} [Num α] (cur : DMP α) :
+    (∀ x ∈ cur.crit, x.id ≠ notUsedName (cur.crit.map (·.id)) "__concealedCriterion__") ∧
+    (∀ c : Crit α, c.id = notUsedName (cur.crit.map (·.id)) "__concealedCriterion__" →
+      critsAdd cur.crit c = .ok (cur.crit ++ [c])) ∧
+    (∀ (a : Alt α) (v : α), (∀ kv ∈ a.vals, kv.1 ∈ cur.crit.map (·.id)) →
+      a.withCrit (notUsedName (cur.crit.map (·.id)) "__concealedCriterion__") v =
+        .ok { a with vals := a.vals ++ [(notUsedName (cur.crit.map (·.id)) "__concealedCriterion__", v)] }) := by
+  have hfresh := notUsedName_fresh (cur.crit.map (·.id)) "__concealedCriterion__"
+  have h1 : ∀ x ∈ cur.crit, x.id ≠ notUsedName (cur.crit.map (·.id)) "__concealedCriterion__" := by
+    intro x hx e
+    exact hfresh (e ▸ List.mem_map_of_mem hx)
+  refine ⟨h1, ?_, ?_⟩
+  · intro c hc
+    unfold critsAdd
+    rw [if_neg]
+    · rfl
+    · simp only [List.any_eq_true, beq_iff_eq, not_exists, not_and]
+      intro x hx e
+      exact h1 x hx (e.trans hc)
+  · intro a v hkeys
+    unfold Alt.withCrit
+    rw [if_neg]
+    · rfl
+    · intro hhas
+      unfold KMap.has at hhas
+      rw [Option.isSome_iff_exists] at hhas
+      obtain ⟨w, hw⟩ := hhas
+      exact hfresh (hkeys _ (lookup_mem hw))
+
+/-- The state that collided before the fix (conceal, conceal, omit the first concealed criterion,
+    conceal — the only id left with the prefix is `__concealedCriterion__1`): the generated name is now
+    `__concealedCriterion__2`. -/
+theorem conceal_after_conceal_conceal_omit_gets_the_next_free_name {ids : List String}
+    (hids : (ids.filter fun i => i.startsWith "__concealedCriterion__") = ["__concealedCriterion__" ++ "1"]) :
+    notUsedName ids "__concealedCriterion__" = "__concealedCriterion__2" := by
+  rw [notUsedName_skips_used_name hids]; rfl
 
 example : ((["c0", "__concealedCriterion__1"]).filter fun i => i.startsWith "__concealedCriterion__")
     = ["__concealedCriterion__" ++ "1"] := by simp
@@ -141,24 +186,51 @@ theorem added_weight_is_a_seeded_fraction_of_the_reference_weight {mp : MParams 
     (hw : (Spec.C18.weightOf mp ref.id).isSome) (hu0 : 0 ≤ u) (hu1 : u < 1) :
     Spec.C18.weightClause mp add ref.id crit.id = true := onAdded_weightClause h hw hu0 hu1
 
-/-- Parameters extended consistently — proved for the weighted sum and the majority heuristic: after
-    `Merge(params, OnCriterionAdded(..))` the parameters satisfy the clause `paramsExtended` of the spec
-    (every old entry untouched, exactly one entry for the new criterion).
-    Full statement (`_partial`: missing cases): the same for ELECTRE III (`mergeDisjoint` of the criteria map),
-    aspect elimination and satisfaction (weights plus one threshold per level, `levelsMerge`); for OWA and
-    Choquet `mergeParams` returns an error on every addition (known findings owa-merge / choquet-merge),
+/-- Parameters extended consistently, for every method whose `Merge` accepts an addition (weighted sum,
+    ELECTRE III, majority, aspect elimination, satisfaction): after `Merge(params, OnCriterionAdded(..))` the
+    parameters satisfy the clause `paramsExtended` of the spec — every old entry untouched, exactly one entry
+    for the new criterion (weight / ELECTRE entry / one threshold per level).  `OnCriterionAdded` may be
+    evaluated on other parameters of the same method than `Merge` (concealment passes `original`'s).
+    Hypotheses: the Go maps involved have unique keys (always true of a Go map).
+    Not covered because false for the code: OWA (`owa_merge_rejects_every_addition`) and Choquet (`Merge`
+    collides on the re-emitted capacities) reject every addition — known findings owa-merge / choquet-merge,
     which the model reproduces. -/
-theorem parameters_are_extended_for_the_new_criterion_partial :
+theorem parameters_are_extended_for_the_new_criterion :
     (∀ {wc wc0 : List (WCrit Rat)} {crit ref : Crit Rat} {d d' : Draws Rat} {add : Addition Rat} {mp' : MParams Rat},
       onAdded (.ws wc0) crit ref d = .ok (add, d') → mergeParams (.ws wc) add = .ok mp' →
       Spec.C18.paramsExtended (.ws wc) mp' [crit.id] = true) ∧
+    (∀ {ec ec0 : KMap (ECrit Rat)} {dist dist0 : LinFun Rat} {crit ref : Crit Rat} {d d' : Draws Rat}
+      {add : Addition Rat} {mp' : MParams Rat},
+      (ec.map (·.1)).Nodup →
+      onAdded (.electre ec0 dist0) crit ref d = .ok (add, d') →
+      mergeParams (.electre ec dist) add = .ok mp' →
+      Spec.C18.paramsExtended (.electre ec dist) mp' [crit.id] = true) ∧
     (∀ {w w0 : KMap Rat} {cur cur0 : String} {seed seed0 : Int} {rnd rnd0 : Bool} {dr dr0 : String}
       {crit ref : Crit Rat} {d d' : Draws Rat} {add : Addition Rat} {mp' : MParams Rat},
       (w.map (·.1)).Nodup →
       onAdded (.majority w0 cur0 seed0 rnd0 dr0) crit ref d = .ok (add, d') →
       mergeParams (.majority w cur seed rnd dr) add = .ok mp' →
-      Spec.C18.paramsExtended (.majority w cur seed rnd dr) mp' [crit.id] = true) :=
-  ⟨fun h1 h2 => ws_parameters_extended h1 h2, fun hnd h1 h2 => majority_parameters_extended hnd h1 h2⟩
+      Spec.C18.paramsExtended (.majority w cur seed rnd dr) mp' [crit.id] = true) ∧
+    (∀ {fn fn0 : String} {lv lv0 : Levels Rat} {seed seed0 : Int} {w w0 : KMap Rat} {rnd rnd0 : Bool}
+      {crit ref : Crit Rat} {d d' : Draws Rat} {add : Addition Rat} {mp' : MParams Rat},
+      (w.map (·.1)).Nodup → (∀ ts, lv = .thresholds ts → ∀ t ∈ ts, (t.map (·.1)).Nodup) →
+      onAdded (.aspect fn0 lv0 seed0 w0 rnd0) crit ref d = .ok (add, d') →
+      mergeParams (.aspect fn lv seed w rnd) add = .ok mp' →
+      Spec.C18.paramsExtended (.aspect fn lv seed w rnd) mp' [crit.id] = true) ∧
+    (∀ {fn fn0 : String} {lv lv0 : Levels Rat} {seed seed0 : Int} {cur cur0 : String} {rnd rnd0 : Bool}
+      {crit ref : Crit Rat} {d d' : Draws Rat} {add : Addition Rat} {mp' : MParams Rat},
+      (∀ ts, lv = .thresholds ts → ∀ t ∈ ts, (t.map (·.1)).Nodup) →
+      onAdded (.satisf fn0 lv0 seed0 cur0 rnd0) crit ref d = .ok (add, d') →
+      mergeParams (.satisf fn lv seed cur rnd) add = .ok mp' →
+      Spec.C18.paramsExtended (.satisf fn lv seed cur rnd) mp' [crit.id] = true) :=
+  ⟨fun h1 h2 => ws_parameters_extended h1 h2, fun hnd h1 h2 => electre_parameters_extended hnd h1 h2,
+   fun hnd h1 h2 => majority_parameters_extended hnd h1 h2,
+   fun hnd hndl h1 h2 => aspect_parameters_extended hnd hndl h1 h2,
+   fun hndl h1 h2 => satisf_parameters_extended hndl h1 h2⟩
+
+/-- the hypotheses are satisfiable: a satisfaction heuristic with two threshold levels accepts an addition -/
+example : ∃ mp', mergeParams (.satisf "thresholds" (.thresholds [[("c0", (1 : Rat))], [("c0", 2)]]) 0 "" false)
+    (.satisf (.thresholds [[("n", (5 : Rat))], [("n", 6)]])) = .ok mp' := ⟨_, rfl⟩
 
 /-- OWA: `Merge` rejects every addition (the model reproduces the Go panic). -/
 theorem owa_merge_rejects_every_addition {α : Type} [Num α] (wc : List (WCrit α)) (add : Addition α) :
@@ -267,5 +339,12 @@ theorem uniform_index_is_in_range (u : Rat) (n : Nat) (hn : 0 < n) (hu0 : 0 ≤ 
     0 ≤ (Num.floorInt (u * Num.ofNat n) : Int) ∧ (Num.floorInt (u * Num.ofNat n) : Int) < n := by
   have := floor_mul_bounds u (Int.ofNat n) hu0 hu1 (by simpa using hn)
   simpa [Num.ofNat] using this
+
+/-- the constants and names this property's models depend on were re-read from the working tree on this run
+    (none fell back to its pinned value because its declaration could not be located) -/
+theorem facts_fresh : (Rdm.Facts.staleFacts.all fun n => !["concealedBaseName", "critGain", "defaultMixingRatio",
+    "defaultConcealmentScaling", "defaultBoundingScaling", "refImportanceRatio", "refRandomUniform",
+    "refRandomWeighted", "wiringRefCriterionFactories", "choquetEps", "roundPrecision"].contains n) = true := by
+  decide
 
 end Rdm.Props.C18
